@@ -364,3 +364,118 @@ Lemma explores_iff_draw_below_eps eps s u alt : qs s <> [] ->
   (u < eps -> policy eps s u alt = Ok alt) /\ (eps <= u -> policy eps s u alt = Ok (argmax (qs s))) /\
   (policy_draws_alt eps u = true <-> u < eps).
 Proof. intros. split; [|split]; [intros; now apply policy_explore | intros; now apply policy_greedy | apply policy_draws_alt_iff]. Qed.
+
+(* ================================================================== round 4 (generator sweep) *)
+(* ------------------------------------------------------------------ learning rate reassigned between calls *)
+Lemma run_learn_v_cons s al a r tr : run_learn_v s ((al, (a, r)) :: tr) = run_learn_v (learn al s a r) tr.
+Proof. reflexivity. Qed.
+
+Lemma run_learn_v_app t1 : forall s t2, run_learn_v s (t1 ++ t2) = run_learn_v (run_learn_v s t1) t2.
+Proof. intros s t2. unfold run_learn_v. apply fold_left_app. Qed.
+
+(* a stretch of calls under one value of alpha is run_learn with that value (so every closed form applies to it,
+   from whatever state the earlier stretches left) *)
+Lemma run_learn_v_const alpha tr : forall s, run_learn_v s (map (fun ar => (alpha, ar)) tr) = run_learn alpha s tr.
+Proof. induction tr as [|[a r] t IH]; intros s; [reflexivity|]. cbn [map]. rewrite run_learn_v_cons, run_learn_cons. apply IH. Qed.
+
+Lemma run_learn_v_lengths tr : forall s,
+  length (qs (run_learn_v s tr)) = length (qs s) /\ length (cnts (run_learn_v s tr)) = length (cnts s).
+Proof. induction tr as [|[al [a r]] t IH]; intros s; [auto|]. rewrite run_learn_v_cons.
+  destruct (IH (learn al s a r)) as [H1 H2]. destruct (learn_lengths al s a r) as [L1 [L2 _]]. split; congruence. Qed.
+
+(* the call made with alpha in force follows the rule for THAT alpha, whatever values were in force before *)
+Lemma learn_v_last_rule tr al a r s :
+  (a < length (qs s))%nat -> (a < length (cnts s))%nat ->
+  let s' := run_learn_v s tr in
+  nth a (cnts (run_learn_v s (tr ++ [(al, (a, r))]))) 0%nat = S (nth a (cnts s') 0%nat) /\
+  nth a (qs (run_learn_v s (tr ++ [(al, (a, r))]))) 0
+  == nth a (qs s') 0 + step_of al (nth a (cnts s') 0%nat) * (r - nth a (qs s') 0).
+Proof. intros H1 H2 s'. rewrite run_learn_v_app. fold s'. change (run_learn_v s' [(al, (a, r))]) with (learn al s' a r).
+  destruct (run_learn_v_lengths tr s) as [L1 L2]. fold s' in L1, L2. apply learn_rule; congruence. Qed.
+
+Lemma rewards_of_v_cons_same a al r tr : rewards_of_v a ((al, (a, r)) :: tr) = r :: rewards_of_v a tr.
+Proof. unfold rewards_of_v. cbn [map snd]. apply rewards_of_cons_same. Qed.
+Lemma rewards_of_v_cons_other a b al r tr : b <> a -> rewards_of_v a ((al, (b, r)) :: tr) = rewards_of_v a tr.
+Proof. intros H. unfold rewards_of_v. cbn [map snd]. now apply rewards_of_cons_other. Qed.
+
+(* the count is the number of visits, whatever learning rates were in force *)
+Lemma count_is_visits_v a tr : forall s, (a < length (cnts s))%nat ->
+  nth a (cnts (run_learn_v s tr)) 0%nat = (nth a (cnts s) 0%nat + length (rewards_of_v a tr))%nat.
+Proof. induction tr as [|[al [b r]] t IH]; intros s H; [cbn; lia|]. rewrite run_learn_v_cons.
+  destruct (learn_lengths al s b r) as [_ [L2 _]].
+  rewrite IH by (rewrite L2; exact H). destruct (Nat.eq_dec b a) as [->|N].
+  - rewrite rewards_of_v_cons_same. cbn [length]. cbn [learn cnts]. rewrite upd_nth_same by assumption. lia.
+  - rewrite rewards_of_v_cons_other by assumption. destruct (learn_other_nth al s b r a) as [_ E]; [congruence|].
+    rewrite E. reflexivity. Qed.
+
+Lemma unvisited_unchanged_v a tr : forall s, rewards_of_v a tr = [] ->
+  nth a (qs (run_learn_v s tr)) 0 = nth a (qs s) 0.
+Proof. induction tr as [|[al [b r]] t IH]; intros s H; [reflexivity|]. rewrite run_learn_v_cons.
+  destruct (Nat.eq_dec b a) as [->|N].
+  - rewrite rewards_of_v_cons_same in H. discriminate.
+  - rewrite rewards_of_v_cons_other in H by assumption. rewrite IH by assumption.
+    destruct (learn_other_nth al s b r a) as [E _]; [congruence|]. exact E. Qed.
+
+(* the loop with (alpha, eps) reassigned between rounds: with constant values it is the loop of before, and every
+   action is a valid index whatever the values in force *)
+Lemma replay_v_const alpha eps draws : forall s rewards,
+  replay_v s (map (fun d => ((alpha, eps), d)) draws) rewards = replay alpha eps s draws rewards.
+Proof. induction draws as [|d ds IH]; intros s rewards; [reflexivity|]. destruct rewards as [|r rs]; [reflexivity|].
+  cbn [map replay_v replay fst snd]. f_equal. apply IH. Qed.
+
+Lemma replay_v_in_range rounds : forall s rewards, wf s -> (0 < n_act s)%nat ->
+  Forall (fun x => (snd (snd x) < n_act s)%nat) rounds ->
+  Forall (fun a => (a < n_act s)%nat) (replay_v s rounds rewards).
+Proof. induction rounds as [|[[al ep] d] ds IH]; intros s rewards W N F; [constructor|].
+  destruct rewards as [|r rs]; [constructor|]. cbn [replay_v fst snd]. inversion F as [|? ? Fd Fds]; subst. cbn [snd] in Fd.
+  assert (A : (act_of ep s d < n_act s)%nat).
+  { unfold act_of. destruct (policy_in_range ep s (fst d) (snd d) W N Fd) as [a [P R]]. rewrite P. exact R. }
+  constructor; [exact A|].
+  pose proof (IH (learn al s (act_of ep s d) r) rs (wf_learn _ _ _ _ W)) as G. cbn [learn n_act] in G.
+  apply G; assumption. Qed.
+
+(* greedy whenever the eps in force at the call is 0 (or not above the draw), whatever it was before: policy has
+   no memory of eps -- this is greedy_picks_max; stated for the loop: *)
+Lemma replay_v_greedy_round s al ep d ds r rs : ep <= fst d -> qs s <> [] ->
+  exists a, replay_v s (((al, ep), d) :: ds) (r :: rs) = a :: replay_v (learn al s a r) ds rs /\
+            (a < length (qs s))%nat /\ (forall j, (j < length (qs s))%nat -> nth j (qs s) 0 <= nth a (qs s) 0).
+Proof. intros H N. exists (act_of ep s d). split; [reflexivity|]. unfold act_of.
+  rewrite policy_greedy by assumption. destruct (argmax_spec (qs s) N) as [A [B _]]. auto. Qed.
+
+(* ------------------------------------------------------------------ env.step / env.reset *)
+Lemma step_end_keeps_reference ref : env_step true ref None = (Ok (0, true), ref).
+Proof. reflexivity. Qed.
+
+Lemma step_is_get_reward ref loss :
+  env_step true ref (Some loss) =
+  (match fst (get_reward ref loss) with Ok r => Ok (r, false) | Raise e => Raise e end, snd (get_reward ref loss)).
+Proof. unfold env_step. destruct (get_reward ref loss). reflexivity. Qed.
+
+Lemma step_invalid_action ref msg : env_step false ref msg = (Raise OtherError, ref).
+Proof. reflexivity. Qed.
+
+Lemma env_reset_keeps_reference ref : env_reset ref = ref.
+Proof. reflexivity. Qed.
+
+Lemma env_steps_cons ref m t : env_steps ref (m :: t) =
+  (fst (env_step true ref m) :: fst (env_steps (snd (env_step true ref m)) t), snd (env_steps (snd (env_step true ref m)) t)).
+Proof. cbn [env_steps]. destruct (env_step true ref m) as [o r']. cbn [fst snd]. destruct (env_steps r' t). reflexivity. Qed.
+
+(* over any number of sessions (end markers anywhere) the reference is what get_reward alone makes of the losses *)
+Lemma env_steps_reference msgs : forall ref, snd (env_steps ref msgs) = snd (env_run ref (losses_of msgs)).
+Proof. induction msgs as [|[x|] t IH]; intros ref; [reflexivity| |].
+  - rewrite env_steps_cons. cbn [losses_of]. rewrite env_run_cons. cbn [snd]. rewrite step_is_get_reward. cbn [snd]. apply IH.
+  - rewrite env_steps_cons. cbn [losses_of]. rewrite step_end_keeps_reference. cbn [snd]. apply IH. Qed.
+
+Lemma env_steps_running_min msgs c0 : Forall is_ok (fst (env_run (Some c0) (losses_of msgs))) ->
+  snd (env_steps (Some c0) msgs) = Some (running_min c0 (losses_of msgs)).
+Proof. intros H. rewrite env_steps_reference. now apply reference_is_running_min. Qed.
+
+(* ------------------------------------------------------------------ the extended checker is conservative *)
+Lemma check_xops_XOp ops : forall alpha eps c, check_xops (mkX alpha eps c) (map XOp ops) = check_ops alpha eps c ops.
+Proof. induction ops as [|o t IH]; intros alpha eps c; [reflexivity|]. cbn [map check_xops check_ops check_xop x_alpha x_eps x_c].
+  destruct (check_op alpha eps c o) as [ok c']. destruct ok; [apply IH|reflexivity]. Qed.
+
+Lemma check_xcase_conservative n alpha eps init ops :
+  check_xcase (n, alpha, eps, init, map XOp ops) = check_case (n, alpha, eps, init, ops).
+Proof. unfold check_xcase, check_case. apply check_xops_XOp. Qed.
